@@ -17,10 +17,10 @@ type pkgSel struct {
 var checkedInPkgs = []string{"./testpb", "./internal/testprotos/test3"}
 
 func newGen(s *Schema, tier string) *gen {
-	g := &gen{s: s, strLen: 1 << 21, keyLen: 2, listN: 1, mapN: 1, pick: 2, seed: seed(), smallPayload: 3, tier: tier}
+	g := &gen{s: s, strLen: 1 << 21, keyLen: 2, listN: 1, mapN: 1, pick: 2, seed: seed(), smallPayload: 2, tier: tier}
 	if tier == "thorough" {
 		g.pick = 4
-		g.smallPayload = 6
+		g.smallPayload = 5
 		g.listN, g.mapN = 2, 2
 	}
 	return g
